@@ -185,8 +185,10 @@ func Main(h *Harness) {
 		h.MinExec = 300
 	}
 	if h.MinTime == 0 {
-		h.MinTime = 90 * time.Second
+		h.MinTime = 40 * time.Second
 	}
+	// all minimisations of one worker together
+	minBudget := 150 * time.Second
 
 	if *refmode {
 		if h.Reference == nil {
@@ -264,8 +266,14 @@ func Main(h *Harness) {
 			rf.Choices = r.Choices
 		}
 		rf.OrigLen = len(rf.Choices)
-		if !knownSet[v.Class] && !h.NoInProcessMinimise {
-			minimise(h, rf, *tier)
+		if !knownSet[v.Class] && !h.NoInProcessMinimise && minBudget > 0 {
+			t0 := time.Now()
+			mt := h.MinTime
+			if mt > minBudget {
+				mt = minBudget
+			}
+			minimise(h, rf, *tier, mt)
+			minBudget -= time.Since(t0)
 		}
 		// Re-run with tracing to fill the trace and the case description.
 		tr := execVec(h, rf, *tier, true)
@@ -382,8 +390,8 @@ func execVec(h *Harness, rf *ReplayFile, tier string, trace bool) *Run {
 }
 
 // minimise shrinks rf.Choices while the same violation class persists.
-func minimise(h *Harness, rf *ReplayFile, tier string) {
-	deadline := time.Now().Add(h.MinTime)
+func minimise(h *Harness, rf *ReplayFile, tier string, budget time.Duration) {
+	deadline := time.Now().Add(budget)
 	tries := 0
 	test := func(vec []uint32) bool {
 		if tries >= h.MinExec || time.Now().After(deadline) {
